@@ -692,6 +692,35 @@ def _check_report(run, repo, world):
                    "%s=%s" % (f[1], f[2]) for f in bad[0]
                    if isinstance(f, tuple) and f[0] == "cond")[:6]
                    if bad else ""), where(mod, n))
+    # `frame` is what the report of this pass carried: on a pass that woke
+    # up on the timer there is none, and the variable still holds the frame
+    # of an earlier pass (the pending command's own first transmission)
+    for n in cfg.reachable:
+        if n.ast is None or n.kind not in ("test", "stmt"):
+            continue
+        if not any(isinstance(x, ast.Name) and x.id == "frame" and
+                   isinstance(x.ctx, ast.Load)
+                   for x in _walk_no_nested(n.ast)):
+            continue
+        bad = W.worlds_with(n, lambda w: ("cond", "timeout", True) in w)
+        run.ob("R-REPORT", Q + "#frame-read-only-with-a-report", not bad,
+               "`%s` reads `frame` on a pass that woke up on the timer "
+               "(timeout is True): the value is left over from an earlier "
+               "report" % unparse(n.ast, 80), where(mod, n))
+    # 'no answer' is what the gateway's NO_FRAME report says, nothing else
+    for n in cfg.reachable:
+        if n.kind == "stmt" and isinstance(n.ast, ast.Assign) and any(
+                unparse(t_) == "frame" for t_ in n.ast.targets) and \
+                isinstance(n.ast.value, ast.Constant) and \
+                n.ast.value.value == "no":
+            okn = W.must(n, ("cond", "rtype == self._RESPONSE_NO_FRAME",
+                             True)) or W.must(
+                n, ("cond", "self._RESPONSE_NO_FRAME == rtype", True))
+            run.ob("R-REPORT", Q + "#no-answer-only-for-NO_FRAME", okn,
+                   "a report is read as 'no frame followed' although its "
+                   "type is not _RESPONSE_NO_FRAME: bus status reports "
+                   "between a query and its answer end the wait",
+                   where(mod, n))
     heads = [n for n in cfg.reachable if n.kind == "join" and "loop" in
              n.info]
     allw = set()
@@ -1134,7 +1163,16 @@ def _check_feed(run, repo, world):
     mod = repo.mod(HID)
     c = world.cls(HID + ".tridonic")
     from .. import astq as _astq
-    fn = _astq.propagate(c.methods["_handle_read"][1])   # `mode = data[0]`
+    from ..drv import expand_method as _expand
+    from ..normal import drop_dead_stores as _dds
+    from ..inline import acopy as _acp
+    # helpers (a method that queues a report for the watcher) inlined, local
+    # aliases (`mode = data[0]`) written out
+    fn = _acp(_expand(world, c, c.methods["_handle_read"][1],
+                      aliases="params"))
+    _dds(fn)
+    ast.fix_missing_locations(fn)
+    fn = _astq.propagate(fn)
     Q = HID + ".tridonic._handle_read"
     cfg = CFG(fn, may_raise=lambda n: False, name=Q)
     W = forward_worlds(cfg, kill_conds_on_assign, cond_edge_transfer())
